@@ -19,7 +19,7 @@ func Union(c explore.Chooser) *prog.Program {
 	marker := s.Pick("Shape.marker", "isShape", "IsShape")
 	nmeth := s.Pick("Shape.methods", "1", "0", "2")
 	second := s.Pick("I2", "absent", "other", "embeds-shape", "in-sub", "unreached", "two-more")
-	reach := s.Pick("reach", "field", "named-slice", "named-map", "top-level-only", "alias", "member-field", "nested-struct")
+	reach := s.Pick("reach", "field", "named-slice", "named-map", "top-level-only", "alias", "member-field", "nested-struct", "alias-of-member")
 
 	homonym := s.Pick("homonym", "none", "square-in-sub")
 
@@ -178,6 +178,14 @@ func Union(c explore.Chooser) *prog.Program {
 	case "alias":
 		a.WriteString("type AnyShape = Shape\n\n")
 		holder = append(holder, "\tS AnyShape")
+	case "alias-of-member":
+		// an alias of a member declared after the member: the node of the member must be shared
+		ref := "Circle"
+		if circleKind == "struct-in-sub" {
+			ref = "sub.Circle"
+		}
+		a.WriteString("type AnyCircle = " + ref + "\n\n")
+		holder = append(holder, "\tS Shape", "\tAC AnyCircle")
 	case "member-field":
 		// the union is reached only through a struct that is itself declared in the file
 		a.WriteString("type Inner struct {\n\tS Shape\n}\n\n")
